@@ -70,7 +70,11 @@ def float_cross(ck, calls, rtol=1e-9, cond_limit=1e6):
     if not calls:
         return 0
     lines, meta = [], []
-    for name, args, val in calls:
+    atols = {}
+    for call in calls:
+        name, args, val = call[:3]
+        if len(call) > 3:            # per-component absolute tolerance (conditioning known analytically)
+            atols[len(lines)] = call[3]
         lines.append(name + " " + " ".join(str(bits(a)) for a in args))
         meta.append((name, args, val, "main"))
         for i in range(len(args)):
@@ -84,6 +88,7 @@ def float_cross(ck, calls, rtol=1e-9, cond_limit=1e6):
     while i < len(lines):
         name, args, val, _ = meta[i]
         main = out[i]
+        atol = atols.get(i)
         perts = []
         j = i + 1
         while j < len(lines) and meta[j][3] == "pert":
@@ -117,9 +122,13 @@ def float_cross(ck, calls, rtol=1e-9, cond_limit=1e6):
                 if k < len(pv) and not math.isnan(pv[k]) and not math.isinf(pv[k]):
                     sens = max(sens, abs(pv[k] - m) / scale)
             err = abs(m - p)
+            if name == "cartposlos2geocentric" and k == 4:
+                err = abs(circ(m, p))          # azimuth -180 = 180 (the sign of a vanishing dlon decides)
             # values that are differences of large numbers (heights, coordinates near an axis, angles near 0):
             # absolute floor of a few ulp of the magnitudes involved
             floor = 64 * 2.3e-16 * max([abs(a) for a in args] + [1.0]) if name not in ("sind", "cosd") else 1e-15
+            if atol is not None:
+                floor += atol[k]
             if sens > cond_limit * 2.3e-16:
                 ck.count("xrun/ill-conditioned")
                 if err > 1e-3 * max(abs(m), abs(p)) + floor and err > 100 * sens * scale:
@@ -394,12 +403,12 @@ class Judge:
             self.v(c, f"geocentricposlos2cart({r!r},{lat!r},{lon!r},{za!r},{aa!r}) = {p}, textbook (up/north/east) value {o}")
             return
         q = [sc(t) for t in g.cartposlos2geocentric(*p)]
-        self.calls.append(("cartposlos2geocentric", tuple(p), tuple(q)))
         # azimuth = arccos(r dlat / sin za): the rounding error of its argument is ~ eps / sin^2(za) (za itself comes
         # from an arccos), and arccos amplifies by 1/|sin aa| (by a square root at aa = 0, +-180)
         dc = 2e-15 / max(math.sin(math.radians(za)) ** 2, 1e-300)
         saa = abs(math.sin(math.radians(aa)))
         tol_aa = max(TOL_DEG, math.degrees(dc / saa if saa > math.sqrt(dc) else 2 * math.sqrt(dc)))
+        self.calls.append(("cartposlos2geocentric", tuple(p), tuple(q), (0.0, 0.0, 0.0, 0.0, 2 * tol_aa)))
         bad = []
         if not (abs(q[0] - r) <= 1e-9 * r and abs(q[1] - lat) <= TOL_DEG and abs(circ(q[2], lon)) <= TOL_DEG):
             bad.append(f"position {(q[0], q[1], q[2])}")
@@ -624,7 +633,7 @@ def main():
     oracle = Oracle(ck)
     corpus = [obj["case"] for _, obj in vlib.load_corpus(PROP) if "case" in obj]
     explore(ck, corpus, oracle, xrun)
-    explore(ck, gen_cases(ck.rng, ck.budget(250, 12000)), oracle, xrun)
+    explore(ck, gen_cases(ck.rng, ck.budget(250, 30000)), oracle, xrun)
     ck.extra_cov["oracle"] = oracle.mode
     if ck.broken() and not [v for v in ck.violations if v["signature"] == "other"]:
         explore(ck, gen_cases(ck.rng, 12000), oracle, xrun=False)      # failing-input search, oracle only
